@@ -47,7 +47,7 @@ _P = "SqlglotModel.Properties.C09."
 THEOREMS = [_P + n for n in (
     "set_frame", "append_frame", "replace_frame", "hash_touches_only_caches", "eq_touches_only_caches",
     "frame_set", "frame_append", "frame_replace", "frame_pop", "copy_equal_disjoint", "copy_original_untouched",
-    "transform_copy_pure", "generated_copy_defaults_ok",
+    "transform_copy_pure", "generated_copy_defaults_ok", "copy_false_sites_allowed",
 )]
 
 Expr = exp.Expr
@@ -841,6 +841,275 @@ def sweep_subnodes(chk: Check, gen, dialects, deadline, rng) -> int:
     return n
 
 
+
+# ------------------------------------------------------------------------------------------ constructs whose printing mutates
+# Generators rewrite some nodes IN PLACE while printing (unnest_sql moves WITH OFFSET into the alias, select_sql pops INTO,
+# struct_sql replaces PropertyEQ children, datatype_sql …) and rely on generate(copy=True) having copied first. The list of
+# such node classes is harvested from the source (ast); the non-mutating APIs are run over inputs that contain them.
+def harvest_mutating():
+    """{method name: [file:op, …]} for every generator / dialect-helper function with an `expression` parameter that calls
+    expression.set/pop/replace/append or writes expression.args"""
+    import glob
+    files = [os.path.join(REPO, "sqlglot", "generator.py"), os.path.join(REPO, "sqlglot", "dialects", "dialect.py")]
+    files += sorted(glob.glob(os.path.join(REPO, "sqlglot", "generators", "*.py")))
+    out: dict = {}
+    for f in files:
+        try:
+            tree = _ast.parse(open(f, encoding="utf-8").read())
+        except (OSError, SyntaxError):
+            continue
+        for fn in _ast.walk(tree):
+            if not isinstance(fn, _ast.FunctionDef) or "expression" not in [a.arg for a in fn.args.args]:
+                continue
+            hits = set()
+            for n in _ast.walk(fn):
+                if isinstance(n, _ast.Call) and isinstance(n.func, _ast.Attribute):
+                    a = n.func
+                    if a.attr in ("set", "pop", "replace", "append") and isinstance(a.value, _ast.Name) and a.value.id == "expression":
+                        hits.add(a.attr)
+                    if (a.attr == "pop" and isinstance(a.value, _ast.Attribute) and a.value.attr == "args"
+                            and isinstance(a.value.value, _ast.Name) and a.value.value.id == "expression"):
+                        hits.add("args.pop")
+                if isinstance(n, _ast.Assign):
+                    for tg in n.targets:
+                        if (isinstance(tg, _ast.Subscript) and isinstance(tg.value, _ast.Attribute) and tg.value.attr == "args"
+                                and isinstance(tg.value.value, _ast.Name) and tg.value.value.id == "expression"):
+                            hits.add("args[]=")
+            if hits:
+                out.setdefault(fn.name, set()).update(os.path.basename(f) + ":" + h for h in hits)
+    return {k: sorted(v) for k, v in sorted(out.items())}
+
+
+def mutating_classes(harvest):
+    keys = {c.key: c for c in c08.all_expression_classes()}
+    return sorted({m[:-4] for m in harvest if m.endswith("_sql") and m[:-4] in keys})
+
+
+def copy_false_sites():
+    """every call `.sql(…)` / `.generate(…)` inside sqlglot that does not pass the default copy=True"""
+    import glob
+    sites = set()
+    for f in glob.glob(os.path.join(REPO, "sqlglot", "**", "*.py"), recursive=True):
+        try:
+            tree = _ast.parse(open(f, encoding="utf-8").read())
+        except (OSError, SyntaxError):
+            continue
+        rel = os.path.relpath(f, REPO).replace(os.sep, "/")
+        for fn in _ast.walk(tree):
+            if not isinstance(fn, (_ast.FunctionDef, _ast.AsyncFunctionDef)):
+                continue
+            for n in _ast.walk(fn):
+                if isinstance(n, _ast.Call) and isinstance(n.func, _ast.Attribute) and n.func.attr in ("sql", "generate"):
+                    for kw in n.keywords:
+                        if kw.arg == "copy" and not (isinstance(kw.value, _ast.Constant) and kw.value.value is True):
+                            sites.add(f"{rel}:{fn.name}:{n.func.attr}:{_ast.unparse(kw.value)}")
+                    if n.func.attr == "generate" and len(n.args) >= 2 and not (isinstance(n.args[1], _ast.Constant) and n.args[1].value is True):
+                        sites.add(f"{rel}:{fn.name}:generate:{_ast.unparse(n.args[1])}")
+    return sorted(sites)
+
+
+MUTATING_SQL = [
+    ("bigquery", "SELECT x, off FROM UNNEST([1, 2, 3]) AS x WITH OFFSET AS off WHERE off > 0"),
+    ("bigquery", "SELECT * FROM t, UNNEST(t.arr) AS e WITH OFFSET"), ("", "SELECT a, b INTO newt FROM t WHERE a > 1"),
+    ("tsql", "SELECT a, b INTO #tmp FROM t WHERE a > 1 ORDER BY b"), ("duckdb", "SELECT {'a': 1, 'b': x + 1, 'c': 'str'} AS s FROM t"),
+    ("bigquery", "SELECT STRUCT(1 AS a, x AS b, 'y' AS c) AS s FROM t"), ("", "SELECT CONCAT_WS(', ', a, b, c), CAST(a AS TEXT), CAST(b AS VARCHAR) FROM t"),
+    ("", "SELECT (SELECT a FROM t ORDER BY a LIMIT 1) AS s, b FROM (SELECT b FROM u ORDER BY b) AS q"),
+    ("postgres", "SELECT arr[1], arr[2:3], j -> 'a' ->> 'b' FROM t"), ("duckdb", "SELECT ~a, a << 2, a >> b, STRPOS(a, 'x'), SPLIT_PART(a, ',', 2) FROM t"),
+    ("duckdb", "SELECT * FROM t TABLESAMPLE RESERVOIR (10 ROWS) JOIN u USING (a)"), ("tsql", "SELECT TIMEFROMPARTS(1, 2, 3, 4, 5), DATETIMEFROMPARTS(2020, 1, 2, 3, 4, 5, 6)"),
+    ("snowflake", "SELECT TIMESTAMP_FROM_PARTS(2020, 1, 2, 3, 4, 5), TIME_FROM_PARTS(1, 2, 3), ARRAY_AGG(a) WITHIN GROUP (ORDER BY b), SPLIT_PART(a, ',', 1) FROM t"),
+    ("snowflake", "SELECT SUM(a) OVER (PARTITION BY b ORDER BY c ROWS BETWEEN UNBOUNDED PRECEDING AND CURRENT ROW) FROM t"),
+    ("bigquery", "SELECT * FROM t FOR SYSTEM_TIME AS OF TIMESTAMP_SUB(CURRENT_TIMESTAMP(), INTERVAL 1 HOUR)"),
+    ("clickhouse", "SELECT NOT a, NOT (a AND b), a NOT IN (1, 2) FROM t"), ("exasol", "SELECT a FROM t WHERE a REGEXP_LIKE 'x.*' GROUP BY ALL"),
+    ("presto", "DELETE FROM t WHERE a > 1"), ("sqlite", "INSERT INTO t (a, b) VALUES (1, 2) ON CONFLICT DO NOTHING"),
+    ("tsql", "CREATE TABLE t (a INT IDENTITY(1, 1), b VARCHAR(MAX), c DATETIME2 DEFAULT GETDATE())"),
+    ("databricks", "CREATE TABLE t (a BIGINT GENERATED ALWAYS AS IDENTITY, b STRING COMMENT 'c') USING DELTA PARTITIONED BY (b)"),
+    ("starrocks", "CREATE TABLE t (a INT, b STRING) PRIMARY KEY (a) DISTRIBUTED BY HASH (a) BUCKETS 4"),
+    ("sqlite", "CREATE TABLE t (a INTEGER PRIMARY KEY AUTOINCREMENT, b TEXT)"), ("athena", "ALTER TABLE t ADD COLUMNS (a INT, b STRING)"),
+    ("postgres", "WITH RECURSIVE c AS (SELECT 1 AS n UNION ALL SELECT n + 1 FROM c WHERE n < 3) SELECT n FROM c"),
+    ("redshift", "SELECT CAST(a AS TEXT), CAST(b AS VARCHAR(MAX)), CAST(c AS SUPER) FROM t"), ("hive", "SELECT CAST(a AS VARCHAR), CAST(b AS CHAR(3)), CAST(c AS TEXT) FROM t"),
+    ("duckdb", "SELECT DATE_DIFF('day', a, b), a::DATE - INTERVAL 1 DAY, MAKE_TIME(1, 2, 3), MAKE_TIMESTAMP(2020, 1, 2, 3, 4, 5) FROM t"),
+    ("databricks", "SELECT j:a.b[0]::STRING, j:['x'] FROM t"), ("snowflake", "CREATE TABLE t (a OBJECT(x INT, y VARCHAR), b ARRAY(INT), c MAP(VARCHAR, INT))"),
+    ("postgres", "SELECT GENERATE_SERIES(1, 10, 2), a FROM t"), ("bigquery", "SELECT * FROM UNNEST(GENERATE_ARRAY(1, 5)) AS n"),
+]
+
+
+def mut_corpus():
+    """(dialect, sql) inputs for the non-mutation oracle: the rare-construct corpus of C08 plus the mutating-print constructs"""
+    return list(MUTATING_SQL) + list(c08.RARE_SQL)
+
+
+def near_variant(t, k, seed):
+    """a copy of `t` with k leaf values changed (deterministic in (k, seed)): near-similar, not identical"""
+    u = t.copy()
+    leaves = [n for n in nodes(u) if isinstance(n, (exp.Literal, exp.Identifier, exp.Var)) and isinstance(n.args.get("this"), str)]
+    if not leaves:
+        return u
+    for j in range(k):
+        n = leaves[(seed * 7 + j * 3) % len(leaves)]
+        v = n.args["this"]
+        n.set("this", (v + "9") if v[:1].isdigit() else (v + "_z"))
+    return u
+
+
+def closure_break(root):
+    for n in nodes(root):
+        if n is not root and n._hash is None and n.parent is not None and n.parent._hash is not None:
+            return f"{type(n).__name__} has no cached hash but its parent {type(n.parent).__name__} has one"
+    return None
+
+
+def evaluate_mut(case):
+    a = case["args"]
+    api = a["api"]
+    try:
+        trees = [t for t in sqlglot.parse(case["sql"], dialect=case.get("dialect")) if t is not None]
+    except Exception:  # noqa: BLE001
+        return None
+    if not trees:
+        return None
+    t = trees[0]
+    if case.get("prep", {}).get("annotate"):
+        from sqlglot.optimizer.annotate_types import annotate_types
+        try:
+            t = annotate_types(t, schema=SCHEMAS["int"])
+        except Exception:  # noqa: BLE001
+            pass
+    prot = [t]
+    light = api == "sql"
+    run = None
+    if api == "sql":
+        run = lambda: t.sql(dialect=a["d"], **a.get("opts", {}))  # noqa: E731
+    elif api.startswith("diff:near"):
+        u = near_variant(t, a["k"], a["seed"])
+        prot = [t, u]
+        from sqlglot.diff import diff as _diff
+        run = lambda: _diff(t, u, delta_only=bool(a.get("delta_only")))  # noqa: E731
+    elif api == "diff:sub":
+        u = near_variant(t, a["k"], a["seed"])
+        prot = [t, u]
+        hash(t)
+        if a.get("hash_other"):
+            hash(u)
+        nt, nu = nodes(t), nodes(u)
+        i = a["i"] % len(nt)
+        from sqlglot.diff import diff as _diff
+        run = lambda: _diff(nt[i], nu[min(i, len(nu) - 1)])  # noqa: E731
+    elif api == "optimize":
+        from sqlglot.optimizer import optimize
+        run = lambda: optimize(t, schema=SCHEMAS["int"], dialect=case.get("dialect"))  # noqa: E731
+    elif api == "lineage":
+        from sqlglot.lineage import lineage
+        cols = [s.alias_or_name for s in getattr(t, "selects", [])][:3]
+        run = lambda: [lineage(c, t, schema=SCHEMAS["int"], dialect=case.get("dialect")) for c in cols if c]  # noqa: E731
+    elif api == "qualify_copy":
+        from sqlglot.optimizer.qualify import qualify
+        run = lambda: qualify(t.copy(), schema=SCHEMAS["int"], dialect=case.get("dialect"))  # noqa: E731
+    elif api == "transpile":
+        run = lambda: (Dialect_get(a["d"]).generate(t), Dialect_get(a["d"]).generator().generate(t))  # noqa: E731
+    else:
+        raise c08.UnknownOp(api)
+    before = [fingerprint(x, text=not light) for x in prot]
+    err = None
+    with MON.protect(prot) as mon:
+        try:
+            run()
+        except c08.UnknownOp:
+            raise
+        except Exception as e:  # noqa: BLE001
+            err = type(e).__name__
+    events = list(mon.events)
+    after = [fingerprint(x, text=not light) for x in prot]
+    field = what = None
+    for i, (b, f) in enumerate(zip(before, after)):
+        d = fp_diff(b, f)
+        if d is None and api.startswith("diff"):
+            d = _diff_mask_msg(b, f)
+            if d is None:
+                cb = closure_break(prot[i])
+                if cb:
+                    d = "closure"
+                    what = f"argument {i}: after diff() {cb} (an edit below it will leave the ancestors' hashes stale)"
+        if d is not None:
+            field = d
+            what = what or f"argument {i} changed: first difference in field {d!r}: {b['sql']!r} -> {f['sql']!r}"
+            break
+    if events and field is None:
+        e = events[0]
+        field = f"write:{e['op']}@{e['site'][0] if e['site'] else '?'}"
+        what = f"{e['op']}() on a {e['on']} of the argument from {' <- '.join(e['site'])}"
+    elif events and field is not None:
+        what += f"; first monitored write: {events[0]['op']}() from {' <- '.join(events[0]['site'])}"
+    if field is None:
+        return None
+    d = a.get("d") or "-"
+    return f"call:mut:{api.split(':')[0] if api.startswith('diff:near') else api}|{d}|{field}", f"{api} ({err or 'returned'}) on {case['sql'][:80]!r}: {what}"
+
+
+def Dialect_get(d):
+    from sqlglot.dialects.dialect import Dialect
+    return Dialect.get_or_raise(d)
+
+
+def sweep_mutating(chk: Check, dialects, deadline, rng) -> int:
+    import logging
+    logging.getLogger("sqlglot").setLevel(logging.ERROR)
+    harvest = harvest_mutating()
+    mcls = mutating_classes(harvest)
+    corpus = mut_corpus()
+    # coverage of the harvested classes by the corpus
+    seen = set()
+    parsed = []
+    for d, sql in corpus:
+        try:
+            ts = [t for t in sqlglot.parse(sql, dialect=d or None) if t is not None]
+        except Exception:  # noqa: BLE001
+            continue
+        if ts:
+            parsed.append((d or None, sql))
+            for t in ts:
+                seen.update(n.key for n in nodes(t))
+    chk.cov["printing_mutates"] = {"methods": len(harvest), "classes": mcls, "covered_by_inputs": sorted(set(mcls) & seen),
+                                   "not_covered": sorted(set(mcls) - seen)}
+    n = 0
+
+    def one(d, sql, args, prep=None):
+        nonlocal n
+        n += 1
+        case = {"call": "mutprint", "sql": sql, "dialect": d, "sql2": None, "prep": prep or {}, "args": args}
+        chk.count("call:mut:" + args["api"].split(":")[0])
+        try:
+            res = evaluate_mut(case)
+        except c08.UnknownOp:
+            return
+        chk.case(("mut", json.dumps(case, sort_keys=True)), nontrivial=True, sample=case if n % 1499 == 1 else None)
+        if res:
+            chk.report_violation(res[0], res[1], case, context={"call": "mutprint"})
+
+    dls = [None] + [x for x in dialects if x]
+    # (1) diff on near-similar pairs and on sub-trees (the distiller prints internal nodes of the CALLER's trees)
+    for d, sql in parsed:
+        if time.time() > deadline or len(chk.violations) >= 3:
+            return n
+        for k in (1, 2, 3):
+            one(d, sql, {"api": "diff:near", "k": k, "seed": k + len(sql), "delta_only": k == 2})
+        one(d, sql, {"api": "diff:sub", "k": 1, "seed": len(sql), "i": 1 + len(sql) % 5, "hash_other": len(sql) % 2 == 0})
+    # (2) printing in every dialect, straight and through Dialect.generate / Generator.generate
+    for d, sql in parsed:
+        for tgt in (dls if not chk.quick else [None, d] + rng.sample(dls, 6)):
+            if time.time() > deadline or len(chk.violations) >= 3:
+                return n
+            one(d, sql, {"api": "sql", "d": tgt, "opts": {"pretty": True} if n % 5 == 0 else {}})
+            if n % 4 == 0:
+                one(d, sql, {"api": "transpile", "d": tgt})
+    # (3) optimize / qualify / lineage over the same inputs
+    for d, sql in parsed:
+        for api in ("optimize", "qualify_copy", "lineage"):
+            if time.time() > deadline or len(chk.violations) >= 3:
+                return n
+            one(d, sql, {"api": api}, {"annotate": n % 3 == 0})
+    return n
+
+
 def search(chk: Check, hints: list, budget_s: float) -> None:
     t0 = time.time()
     rng = chk.rng
@@ -852,21 +1121,22 @@ def search(chk: Check, hints: list, budget_s: float) -> None:
                             "excluded_no_copy_default": sorted(n for n, v in inc.items() if v is None)}
     active = [c for n, c in allc.items() if inc[n] and n != "sql"]
     dialects = c08.all_dialects()
-    n_cases = n_copy = found = n_sub = 0
+    n_cases = n_copy = found = n_sub = n_mut = 0
     sc = [("x", c) for c in "abc"] + [("y", c) for c in "abc"]
     MON.install()
     try:
         for h in hints or []:
             try:
-                res = evaluate_subnode(h) if h.get("call") == "subnode" else evaluate(h)
+                res = evaluate_subnode(h) if h.get("call") == "subnode" else evaluate_mut(h) if h.get("call") == "mutprint" else evaluate(h)
             except (c08.UnknownOp, KeyError, TypeError):
                 chk.count("hint:skipped")
                 continue
             chk.count("hint:run")
             if res:
                 report(chk, h, res)
-        n_sub = sweep_subnodes(chk, gen, dialects, t0 + budget_s * 0.2, rng)
-        t_calls = t0 + budget_s * 0.75
+        n_mut = sweep_mutating(chk, dialects, t0 + budget_s * 0.22, rng)
+        n_sub = sweep_subnodes(chk, gen, dialects, t0 + budget_s * 0.4, rng)
+        t_calls = t0 + budget_s * 0.8
 
         def one(case):
             nonlocal n_cases, found
@@ -939,7 +1209,7 @@ def search(chk: Check, hints: list, budget_s: float) -> None:
                     chk.report_violation(res[0], res[1] + " (not reproduced by the from-scratch replay)", case, context={"call": "copy-edit"})
     finally:
         MON.uninstall()
-    chk.search_info = {"ran": True, "budget_s": budget_s, "calls": n_cases, "subnode_calls": n_sub, "copy_histories": n_copy, "violating": found,
+    chk.search_info = {"ran": True, "budget_s": budget_s, "calls": n_cases, "subnode_calls": n_sub, "mutating_print_calls": n_mut, "copy_histories": n_copy, "violating": found,
                        "apis": len(active) + 1, "dialects": len(dialects), "elapsed_s": round(time.time() - t0, 1),
                        "oracle": "fingerprint (links, args, comments, types, meta, sql(), repr()) of every argument tree identical before/after "
                                  "AND no monitored set/append/replace/pop/_set_parent touches a node of an argument tree; diff(): no hash "
@@ -1002,10 +1272,19 @@ def translate(chk: Check) -> str:
     for k, v in facts.items():
         if not v:
             chk.broken.append({"kind": "translator", "what": f"C09 translator: structure changed: {k} no longer recognised"})
+    sites = copy_false_sites()
+    mcls = mutating_classes(harvest_mutating())
+    chk.cov["copy_false_call_sites"] = sites
     lines = ["-- GENERATED by vf/props/c09.py from sqlglot/{generator,expressions/core,optimizer/optimizer}.py. Do not edit.",
              "import SqlglotModel.Model.Tree", "namespace SqlglotModel.Generated.C09"]
     for k, v in facts.items():
         lines.append(f"def {k} : Bool := {'true' if v else 'false'}")
+    lines.append("/-- node classes whose `*_sql` method rewrites the node it prints in place (harvested from the generators): for them "
+                 "`generate(copy=True)` is the only barrier between printing and the caller's tree -/")
+    lines.append("def printingMutates : List String := " + c08._lean_list(c08._lean_str(x) for x in mcls))
+    lines.append("/-- every call of `.sql(…)` / `.generate(…)` inside sqlglot that does not pass the default `copy=True` "
+                 "(file:function:callee:value) -/")
+    lines.append("def copyFalseSites : List String := " + c08._lean_list(c08._lean_str(x) for x in sites))
     lines.append("end SqlglotModel.Generated.C09")
     return "\n".join(lines) + "\n"
 
@@ -1115,7 +1394,7 @@ def run(chk: Check) -> None:
         if proved:
             raise
         chk.note(f"model driver unavailable ({e}); continuing with the search on the real code")
-    budget = chk.pick(30, 300)
+    budget = chk.pick(38, 300)
     if chk.broken:
         budget *= 2
     search(chk, hints, budget)
@@ -1129,7 +1408,7 @@ def replay(path: str) -> int:
         return 1
     MON.install()
     try:
-        res = evaluate_subnode(case) if case["call"] == "subnode" else evaluate(case)
+        res = evaluate_subnode(case) if case["call"] == "subnode" else evaluate_mut(case) if case["call"] == "mutprint" else evaluate(case)
     finally:
         MON.uninstall()
     print("replay:", f"VIOLATES [{res[0]}]: {res[1]}" if res else "holds")
